@@ -384,4 +384,4 @@ PROP = Prop(
                  "pointwise_cm with size-0 threshold axes is exercised under C10"],
 )
 
-RULE_EXTRA = ('int64 / uint64 scores of magnitude 2^53..2^63 one unit apart with integer thresholds (array and Python int); pointwise_cm on 2-D label / score arrays of differing memory layout; score containers float64 / float32 / float16 / Python lists / one class int or float32 next to a float64 class / uint8-uint16-bool quantised scores; easy counts up to 2^40; thresholds as nested lists, Fortran-ordered arrays and float32/float16 arrays.')
+RULE_EXTRA = ('int64 / uint64 scores of magnitude 2^53..2^63 one unit apart with integer thresholds (array and Python int); pointwise_cm on 2-D label / score arrays of differing memory layout; score containers float64 / float32 / float16 / Python lists / one class int or float32 next to a float64 class / uint8-uint16-bool quantised scores; easy counts up to 2^40; thresholds as nested lists, Fortran-ordered arrays and float32/float16 arrays. Score arrays in non-native byte order; missing labels (None / NaN); clause pointwise_large (1.7e7 label-prediction pairs).')
